@@ -139,6 +139,10 @@ structure St where
   /-- object reference: the foreign-key column attribute is present in `dict`, so the lazy
       loader can resolve the committed reference through the identity map without SQL -/
   fk : Bool
+  /-- `state.modified` (the state takes part in the next flush) -/
+  modified : Bool
+  /-- the primary-key attribute is expired (whole-object expiry: commit / rollback) -/
+  pkx : Bool
 deriving Repr, DecidableEq
 
 /-- `old` of `set` / `delete` as recorded in committed_state.  Scalar: `dict_.get(key, NO_VALUE)`.
@@ -157,11 +161,11 @@ def oldOf (s : St) : CS SVal :=
 
 /-- `obj.attr = v` (does not touch `state.expired_attributes`) -/
 def set (s : St) (v : SVal) : St :=
-  { s with cs := capture s.cs (oldOf s), cur := .val v }
+  { s with cs := capture s.cs (oldOf s), cur := .val v, modified := true }
 
 /-- `del obj.attr`; `false` = AttributeError (after `_modified_event` has run) -/
 def del (s : St) : St × Bool :=
-  let s1 := { s with cs := capture s.cs (oldOf s), cur := Slot.absent }
+  let s1 := { s with cs := capture s.cs (oldOf s), cur := Slot.absent, modified := true }
   match s.cur with
   | .val _ => (s1, true)
   | .absent =>
@@ -177,6 +181,14 @@ def expire (s : St) : St :=
   | none => s
   | some _ => { s with cur := .absent, cs := .noHistory, expired := true }
 
+/-- expiry of the whole object (`Session.commit` with expire_on_commit): `state._expire` also
+    clears `modified` and expires the primary key -/
+def expireAll (s : St) : St :=
+  match s.db with
+  | none => s
+  | some _ =>
+    { s with cur := .absent, cs := .noHistory, expired := true, modified := false, pkx := true }
+
 /-- attribute access `obj.attr` (`_AttributeImpl.get`): a value in dict is returned as is.
     Scalar: an expired attribute is (re)loaded from the row — `_load_expired` with nothing
     unmodified to load refreshes the whole object and discards the pending change; otherwise
@@ -191,8 +203,22 @@ def load (s : St) : St :=
       match s.cs with
       | .val _ => s
       | _ => { s with cur := .val v, cs := .noHistory, expired := false }
-    else if s.expired then { s with cur := .val v, cs := .noHistory, expired := false } else s
+    else if s.expired then { s with cur := .val v, cs := .noHistory, expired := false, pkx := false }
+    else s
   | _, _ => s
+
+/-- access to ANOTHER expired column attribute of the same object: `_load_expired` loads
+    `expired_attributes ∩ unmodified` — this attribute too when it is expired and has no
+    committed_state entry, never when it was modified (set / deleted) while expired — and then
+    clears `expired_attributes` altogether -/
+def loadOther (s : St) : St :=
+  if s.isObj then s
+  else
+    match s.cur, s.cs, s.db with
+    | .absent, .noHistory, some v =>
+      if s.expired then { s with cur := .val v, expired := false, pkx := false }
+      else { s with pkx := false }
+    | _, _, _ => { s with expired := false, pkx := false }
 
 /-- `inspect(obj).attrs.key.history` = `impl.get_history(state, dict_, PASSIVE_NO_INITIALIZE)`:
     nothing is loaded; an attribute absent from dict and from committed_state has a blank
@@ -208,9 +234,9 @@ def history (s : St) : Hist SVal :=
       -- object: `get` with PASSIVE_NO_INITIALIZE returns PASSIVE_NO_RESULT -> HISTORY_BLANK
       if s.isObj then .blank else fromScalar c .absent
 
-/-- flush of a persistent or pending object: the current value is written, history committed.
+/-- the UPDATE / INSERT part of a flush: the current value is written, history committed.
     A missing value is written as NULL. -/
-def flush (s : St) : St :=
+def flushWrite (s : St) : St :=
   match s.cs with
   | .noHistory => match s.db with
     | some _ => s
@@ -225,11 +251,28 @@ def flush (s : St) : St :=
              fk := s.fk || (match s.cur with | .val _ => true | .absent => false) ||
                    (match s.cs with | .val _ => true | _ => false) }
 
+/-- `Session.flush()`: a state with `modified` takes part; at the end `_register_persistent` reads
+    its primary key — an expired pk loads every expired unmodified column attribute -/
+def flush (s : St) : St :=
+  let s1 := flushWrite s
+  if s.modified then
+    if s.pkx && !s.isObj then
+      -- unmodified = no committed_state entry BEFORE the write (`_commit_all` runs afterwards)
+      match s.cur, s.cs, s1.db with
+      | .absent, .noHistory, some v =>
+        if s1.expired then { s1 with cur := .val v, expired := false, modified := false, pkx := false }
+        else { s1 with modified := false, pkx := false }
+      | _, _, _ => { s1 with modified := false, pkx := false, expired := false }
+    else { s1 with modified := false, pkx := false }
+  else s1
+
 inductive Op where
   | set (v : SVal)
   | del
   | expire
   | load
+  | loadOther
+  | expireAll
   | flush
 deriving Repr, DecidableEq
 
@@ -238,6 +281,8 @@ def step (s : St) : Op → St
   | .del => (del s).1
   | .expire => expire s
   | .load => load s
+  | .loadOther => loadOther s
+  | .expireAll => expireAll s
   | .flush => flush s
 
 def run (s : St) : List Op → St
@@ -245,8 +290,8 @@ def run (s : St) : List Op → St
   | op :: ops => run (step s op) ops
 
 /-- a loaded persistent attribute holding `v` / a brand-new object -/
-def loaded (v : SVal) (isObj : Bool) : St := ⟨.val v, .noHistory, some v, false, isObj, true⟩
-def fresh (isObj : Bool) : St := ⟨.absent, .noHistory, none, false, isObj, false⟩
+def loaded (v : SVal) (isObj : Bool) : St := ⟨.val v, .noHistory, some v, false, isObj, true, false, false⟩
+def fresh (isObj : Bool) : St := ⟨.absent, .noHistory, none, false, isObj, false, true, false⟩
 
 end Scalar
 
